@@ -18,6 +18,20 @@ from common import run_cmds, run_tlc_many
 from props import c06, c17, c19, fmtlib
 
 
+def bin_with_container(x):
+    """does the program contain a binary operator one of whose operands is (or ends in) an object, array or call"""
+    if isinstance(x, list):
+        return any(bin_with_container(v) for v in x)
+    if not isinstance(x, dict):
+        return False
+    if x.get("t") in ("bin", "objext"):
+        for side in ("l", "r", "b"):
+            o = x.get(side)
+            if isinstance(o, dict) and o.get("t") in ("obj", "arr", "apply", "objext", "arrcomp", "members", "objcomp"):
+                return True
+    return any(bin_with_container(v) for v in x.values())
+
+
 def run(chk):
     thorough = chk.tier == "thorough"
     rng = random.Random(chk.seed)
@@ -103,7 +117,11 @@ def run(chk):
                 # converges on the second pass: was the first pass's layout broken by the line width?
                 strip = lambda x: [y for y in (c17.tokens_of(x) or []) if y != ","]
                 toks = c17.tokens_of(src) or []
-                if strip(t[0]) == strip(t[1]) and len(" ".join(toks)) > 100 and not r.get("comments_out"):
+                # the recorded finding: a container (object / array / call) that is an operand of a binary operator is broken by
+                # the width limit on the first pass; plain long arrays / objects / calls are laid out in one pass
+                # (or an enclosing container is forced open by a comment); plain long arrays / objects / calls are laid out in one pass
+                if strip(t[0]) == strip(t[1]) and len(" ".join(toks)) > 100 \
+                        and (bin_with_container(r["ast_in"].get("ast")) or r.get("comments_out")):
                     cause = "width-forced break"
             key = f"c20:not a fixed point:{cause}" if cause else f"c20:not a fixed point:{tag}:indent={ind}:{src[:80]!r}"
             c1 = [fmtlib.norm_comment(c) for c in r.get("comments_out", [])]
